@@ -80,6 +80,10 @@ extern long mpt_buffer_set(MPT_STRUCT(buffer) *buf, const MPT_STRUCT(type_traits
 			return MPT_ERROR(BadType);
 		}
 	}
+	/* elements with finalizer need an init function to be copied */
+	if (src_data && len && fini && !init) {
+		return MPT_ERROR(BadOperation);
+	}
 	/* terminate overlapping target data */
 	if (fini) {
 		size_t off, last = (end < used) ? end : used;
